@@ -284,6 +284,9 @@ def run_c08(pid, tier):
         hist.append([("D", nm, b"1"), ("A", "p/" + nm, "to/" + nm, b"2"), ("F", "z/" + "f" + nm, b"3")])
     for _ in range(60 if tier == "quick" else 600):
         hist.append(distinct_history(rng, rng.randint(1, 5)))
+    # names of one shape that differ only in their non-ASCII letters: distinct items, distinct identifiers
+    for pair in [["图片.png", "照片.png"], ["å.css", "ä.css", "ö.css"], ["naïve.txt", "naive.txt", "na_ve.txt"]]:
+        hist.append([("D", n, n.encode()) for n in pair]); hist.append([("F", "u/" + n, n.encode()) for n in pair])
     rs = run_histories(hist)
     disagree = []; oracle_fail = []
     for h, r in zip(hist, rs):
@@ -321,7 +324,9 @@ def run_c08(pid, tier):
                     files[d + rng.choice(["a", "b", "inner", "k", "zz", "0", "M"]) + rng.choice([".txt", ".bin", ".css", ""])] = rand_bytes(rng, rng.choice([0, 1, 9, 70]))
         files = {p: c for p, c in files.items() if not any(q != p and (q.startswith(p + "/") or p.startswith(q + "/")) for q in files)}
         to = rng.choice(["assets", "", "v/1"])
-        scen.append([('W', 'st/' + p, c) for p, c in sorted(files.items(), key=lambda x: rng.random())] + [('R', [('s',), ('t', 'st', to)])])
+        # symbolic links among the entries (neither file nor directory for the walker: skipped, and they must not disturb their neighbours)
+        links = [('Y', 'st/' + d + nm, tgt) for d in ["", "m/", "z/"] for nm, tgt in [("latest1.js", "a.txt"), ("Cur2", "m"), ("l3.css", "/nonexistent")] if rng.random() < 0.3]
+        scen.append([('W', 'st/' + p, c) for p, c in sorted(files.items(), key=lambda x: rng.random())] + links + [('R', [('s',), ('t', 'st', to)])])
         wants.append((to, files))
     rsb = build_lib.run_scenarios(scen)
     for sc, r in zip(scen, rsb): r["key"] = build_lib.scenario_line(sc)
@@ -380,6 +385,13 @@ def run_c09(pid, tier):
             if rng.random() < 0.4: h += distinct_history(rng, 2, name_pool=COLLIDERS, unicode_ok=False)
             ids = [py_ident(op[2]) if op[0] == "A" else hashed_ident(op[1]) for op in h]
             if len(set(ids)) == len(ids): add(h)
+    # names whose byte length exceeds their character count (letters only, so that the identifiers stay legal), next to ASCII ones
+    for names in [["blåbärssoppa.svg", "a.css"], ["日本語のファイル.png", "zz.js", "é.js"], ["ÅÄÖåäö.txt", "Aao.txt"], ["grüße.css", "grusse.css", "x.css"]]:
+        for k in "FD":
+            add([(k, ("d/" if k == "F" else "") + n, n.encode()) for n in names])
+    # one source file published under two names (add_file, then add_file_as of the same path; the other way round)
+    for (p, u) in [("k/key.txt", ".well-known/key.txt"), ("st/app.js", "assets/app.js"), ("logo.png", "img/logo.png")]:
+        add([("F", p, b"same"), ("A", p, u, b"same")]); add([("A", p, u, b"same"), ("F", p, b"same"), ("D", "zz.bin", b"z")])
     rs = run_histories(hist, probes=[[("G", p) for p in pr] for pr in probes])
     disagree = []; oracle_fail = []
     for h, r in zip(hist, rs):
@@ -503,7 +515,7 @@ def run_c20(pid, tier):
             base = rng.choice(sorted(added)); ref = rng.choice(["theme/", "../img/", "x/y/", "/", "./", "to/", "src/"]) + base
             if rng.random() < 0.3 and "/" in base: ref = base.split("/", 1)[1]
         if '"' in ref or "\\" in ref: continue
-        hist.append(h + [("S", "scss/m%d.scss" % len(hist), ref)])
+        hist.append(h + [("S", "scss/m%d%s.scss" % (len(hist), rng.choice(["", "", ".dark", ".v2.min"])), ref)])
         expect.append(added.get(ref))
     rs = run_histories(hist)
     disagree = []; oracle_fail = []
@@ -551,6 +563,7 @@ def run_c20(pid, tier):
         return bytes(out)
     multi = []
     mpool = ["font-awesome.woff", "a.css", "a-b.css", "x y.js", "d-1.2.min.js", "17.css"]
+    hashed_like = [("src/i.js", "assets/index-BxK3j2aP.js", "assets/index.js"), ("src/m.css", "main-0a1B2c3D.css", "main.css"), ("src/l.png", "img/logo-AAAAAAAA.png", "img/logo.png")]
     for _ in range(60 if tier == "quick" else 500):
         mem = rng.sample(mpool, rng.randint(1, 3))
         added = {}
@@ -564,6 +577,11 @@ def run_c20(pid, tier):
             else:
                 i = rng.randrange(len(base))
                 refs.append(base[:i] + rng.choice("-._ ") + base[i + 1:] if base[i] in "-._ " else rng.choice(["nope.css", base + "x"]))
+        if rng.random() < 0.25:
+            # a file published verbatim under a name that looks like <stem>-<8 characters>.<ext>; the reference to <stem>.<ext> was never added
+            pth, url, look = rng.choice(hashed_like)
+            h.append(("A", pth, url, b"as")); added[url] = url.encode()
+            refs = [r for r in refs if r in added][:2] + [rng.choice([look, look, url])]
         extra = rng.choice(["", "", 'z{content:"\u2192"}', 'z{font-family:"Gr\u00fc\u00df"}', "/* \u00e9 */"])
         scss = extra + "".join("r%d{u:static_name(\"%s\")}" % (k, x) for k, x in enumerate(refs))
         multi.append((h, refs, added, scss))
@@ -593,6 +611,25 @@ def run_c20(pid, tier):
             for r in refs:
                 if added[r] not in css:
                     oracle_fail.append((key, "static_name(%r) did not resolve to the published name %r inside the compiled css" % (r, added[r]), css[:300].decode("latin1"))); break
+    import build_lib
+    scen = []; meta2 = []
+    for _ in range(8 if tier == "quick" else 60):
+        nm = rng.choice(["a.png", "logo-x.svg", "f.b.woff2"]); c1 = rand_bytes(rng, rng.choice([3, 40]), "rand") or b"1"; c2 = c1 + b"!"
+        prog = [('s',), ('f', 'st/' + nm), ('S', 'scss/site.scss', nm)]
+        scen.append([('W', 'st/' + nm, c1), ('W', 'scss/site.scss', 'a{b:static_name("%s")}' % nm), ('R', prog), ('W', 'st/' + nm, c2), ('R', prog), ('R', prog)])
+        meta2.append((nm, [c1, c2, c2]))
+    for (nm, cs), r in zip(meta2, build_lib.run_scenarios(scen)):
+        runs = [x for x in r["runs"] if x["kind"] == "R"]
+        chk.count(("rebuild sass " + nm).encode() + cs[0], True)
+        sn = split_name(nm)
+        for k, (run, c) in enumerate(zip(runs, cs)):
+            st = (run["after"].get(b"templates/statics.rs") or (b"", ""))[0] or b""
+            url = sn[0] + b"-" + py_slug(c) + b"." + sn[1]
+            css = b'a{b:"' + url + b'"}\n'
+            want = b'name: "site-' + py_slug(css) + b'.css"'
+            if run["status"] != "ok" or want not in st:
+                oracle_fail.append(("run %d of 3 into one OUT_DIR: %s changed between the runs, the stylesheet did not" % (k + 1, nm),
+                                    "the compiled stylesheet does not hold the current published name of %s (expected an item with %s)" % (nm, want.decode()), st[-500:].decode("latin1"))); break
     chk.notes["multi_reference_stylesheets"] = nmulti
     for h in hist[:3]:
         chk.sample(dict(ops=[(op[0], op[1], op[2] if op[0] in "AS" else len(op[2])) for op in h]))
